@@ -8,7 +8,7 @@ ASYNC_FORMS = ['await', 'awaitexpr', 'awaitprint', 'gather', 'asyncwith', 'async
 NPTS = {'for': 2, 'if': 2, 'try': 2, 'tryexc': 2, 'semi': 2, 'semiemit': 2, 'multicall': 2, 'asyncwith': 3,
         'asyncfor': 2, 'comment': 0, 'blankprompt': 0, 'directive': 0, 'defhelper': 0, 'defemit': 0, 'defclass': 0,
         'asyncdef': 0, 'badcompile': 0, 'usename': 0, 'useG': 0, 'useshadow': 0, 'delconst': 0, 'hasconst': 0,
-        'decodef2': 2, 'bgtask': 3, 'useclass': 0, 'trysibling': 2}
+        'decodef2': 2, 'bgtask': 3, 'useclass': 0, 'trysibling': 2, 'regappend': 0}
 MULTILINE_FORMS = {'bgtask', 'trysibling', 'for', 'if', 'with', 'try', 'tryexc', 'multiline', 'multicall', 'tq', 'tqprint', 'defhelper',
                    'defemit', 'asyncwith', 'asyncfor', 'asyncdef', 'defclass', 'decoclass', 'decoasync', 'decodef2'}
 # forms in which a point may raise without the doctest's own code handling it
@@ -124,6 +124,8 @@ def gen_steps(rng, cfg, pfx, modname):
         if form == 'blankprompt':
             st['n'] = rng.choice([1, 1, 2])
             st['ps2'] = False
+        if form == 'coroexpr':
+            st['ps2'] = False
         if cfg.p_inline_dir and form not in W.NOCODE_FORMS and form not in ('tq', 'tqprint', 'bgtask') and rng.random() < cfg.p_inline_dir:
             st['inline'] = rng.choice(HARMLESS_DIRS)
             st['inline_at'] = rng.choice(['first', 'last'])
@@ -143,7 +145,10 @@ def gen_steps(rng, cfg, pfx, modname):
         has_value = W.value_repr(st) is not None
         want = None
         r = rng.random()
-        if form not in W.NOCODE_FORMS and form not in ('defhelper', 'defemit'):
+        if form == 'coroexpr':
+            # (in REPL mode the echoed repr -- with its address -- would be recorded output)
+            want = None if chunk_semi else 'coro'
+        elif form not in W.NOCODE_FORMS and form not in ('defhelper', 'defemit'):
             if r < cfg.p_tb and form in TB_FORMS and (isexpr or chunk_start):
                 want = rng.choice(cfg.tb_kinds)
                 e = dict(rng.choice(NOMINAL_EXCS))
@@ -214,6 +219,9 @@ def gen_doc(rng, cfg, pfx, modname, indented=True):
     nd = 1 if layout == 'freeform' else rng.randint(1, cfg.max_doctests_per_doc)
     for d in range(nd):
         dt = {'steps': gen_steps(rng, cfg, '%sd%d' % (pfx, d), modname)}
+        if layout == 'google' and cfg.get('p_header_prose') and rng.random() < cfg['p_header_prose']:
+            # (inside an example block, deeper than the real section headers)
+            dt['header_prose'] = True
         if cfg.get('p_indent') and rng.random() < cfg['p_indent']:
             indent_region(rng, dt['steps'])
         if layout == 'google':
@@ -335,7 +343,7 @@ def fix_chunk_starts(steps):
                     and not st.get('inline'):
                 st['sep'] = 'blank'
                 semi = False
-        if w and st['form'] == 'emitop' and semi:
+        if w and st['form'] in ('emitop', 'coroexpr') and semi:
             st['sep'] = 'blank'
             semi = False
         if prev is not None and prev['form'] == 'bgtask' and not prev.get('want') and st.get('sep', 'none') == 'none':
